@@ -221,30 +221,40 @@ def check(args):
 
 
 def search(prop, family, meta, tier, seed, workers, budget, binary, scratch, t0, race):
-    procs = []
-    for i in range(workers):
-        seed0 = ((seed & 0xFFFFFF) << 36) + (i << 28) + 1
-        env = {
-            "VERIF_PROP": family, "VERIF_MODE": "search", "VERIF_TIER": tier,
-            "VERIF_SEED0": seed0, "VERIF_BUDGET_MS": int(budget * 1000),
-            "VERIF_OUT": os.path.join(scratch, "w%d.json" % i),
-            "VERIF_SHAPES": os.path.join(scratch, "w%d.shapes" % i),
-            "VERIF_PROGRESS": os.path.join(scratch, "w%d.progress" % i),
-            "VERIF_STALLFILE": os.path.join(scratch, "w%d.stall" % i),
-            "VERIF_STALL_S": meta.get("stall_s", 60),
-            "TMPDIR": scratch,
-        }
-        if race:
-            env["GORACE"] = "halt_on_error=0 log_path=%s" % os.path.join(scratch, "race-w%d" % i)
-        procs.append((i, run_worker(binary, env), env))
+    # worker processes are recycled every slice_s seconds where a long-lived
+    # process grows without bound (the race detector's shadow state of tens of
+    # thousands of abandoned bubbles)
+    slice_s = meta.get("slice_s") or budget
+    rounds = max(1, int((budget + slice_s - 1) // slice_s))
+    done = []
+    for r in range(rounds):
+        procs = []
+        for i in range(workers):
+            seed0 = ((seed & 0xFFFFFF) << 36) + (i << 28) + (r << 21) + 1
+            tag = "w%d" % i if rounds == 1 else "w%dr%d" % (i, r)
+            env = {
+                "VERIF_PROP": family, "VERIF_MODE": "search", "VERIF_TIER": tier,
+                "VERIF_SEED0": seed0, "VERIF_BUDGET_MS": int(min(slice_s, budget - r * slice_s) * 1000),
+                "VERIF_OUT": os.path.join(scratch, tag + ".json"),
+                "VERIF_SHAPES": os.path.join(scratch, tag + ".shapes"),
+                "VERIF_PROGRESS": os.path.join(scratch, tag + ".progress"),
+                "VERIF_STALLFILE": os.path.join(scratch, tag + ".stall"),
+                "VERIF_STALL_S": meta.get("stall_s", 60),
+                "TMPDIR": scratch,
+            }
+            if race:
+                env["GORACE"] = "halt_on_error=0 log_path=%s" % os.path.join(scratch, "race-" + tag)
+            procs.append((i, run_worker(binary, env), env))
+        for i, p, env in procs:
+            so, se = p.communicate()
+            done.append((i, p, env, so, se))
     outs = []
     trouble = []
     crashes = []
     salvaged = []
     stalls = []
     notes = []
-    for i, p, env in procs:
-        so, se = p.communicate()
+    for i, p, env, so, se in done:
         outp = env["VERIF_OUT"]
         # (a -race binary exits 1 when the detector reported anything)
         if (p.returncode == 0 or (race and p.returncode == 1)) and os.path.exists(outp):
@@ -316,8 +326,8 @@ def search(prop, family, meta, tier, seed, workers, budget, binary, scratch, t0,
         failures.append(f)
         fail_counts[f["class"]] = fail_counts.get(f["class"], 0) + 1
     shapes = set()
-    for i in range(workers):
-        sp = os.path.join(scratch, "w%d.shapes" % i)
+    import glob as _glob
+    for sp in sorted(_glob.glob(os.path.join(scratch, "w*.shapes"))):
         if os.path.exists(sp):
             a = array.array("Q")
             with open(sp, "rb") as f:
